@@ -15,6 +15,12 @@ The reference is built per variant by THIS generator from the documented rule, w
 Fields are probes with symbolic tags (vlib/fmtprobe.py), so which field was printed where and under which trait is visible.
 The two compile-time rejections of the statement (`_variant` with a specifier or a non-Display trait; enum-level `#[debug(..)]`)
 are type-level obligations: the `rej_*` programs (Program.expect_compile=False) must be rejected; compiling is the violation.
+
+Defect found by `wrap_ptr_implicit_single` (reproduced natively, fixed in /repo d476b1c): under derive(Pointer) with a wrapping
+enum-level format, a single-field variant without attribute contributed `format_args!("{:p}", _0)` with `_0` the by-reference
+binding, i.e. the address of the field slot instead of what the variant prints by itself.
+Not in the family: `#[display("{0}", x = _variant)]` (an aliased `_variant` referenced by INDEX) is not recognised as a mention and
+fails with rustc E0425 -- a compile error, nothing silent.
 """
 import itertools
 import random
